@@ -74,7 +74,7 @@ def instances(tier):
                               "C09/c09.c", rc.UNITS, d, unwind=UW, default_unwind=lmax + 2, encoded_units=rc.ENC,
                               fp_removal=True, replay_units=rc.REPLAY_UNITS, object_bits=12, timeout=3000, mem_gb=10))
     # the transmitter refuses every frame (sink error while replying), documented loop continues
-    for k in ([14, 24] if tier == "quick" else [1, 14, 24, 32]):
+    for k in ([14, 24] if tier == "quick" else [14, 24, 32]):
         UW = rc.unwind(lmax, k, 2)
         UW["header_ok"] = lmax + 2
         for tcp in (0, 1):
